@@ -141,16 +141,16 @@ def gen_cases(rng, tier):
     thorough = tier == "thorough"
     cases = []
     # --- two sessions x <= 4 operations
-    npairs = 500 if thorough else 70
+    npairs = 500 if thorough else 45
     for n in range(npairs):
-        if n < 40 or rng.random() < 0.5:
+        if n < 25 or rng.random() < 0.5:
             pa, pb = rng.choice(POOL), rng.choice(POOL)
         else:
             pa, pb = _rand_prog(rng, rng.randint(1, 4), 2), _rand_prog(rng, rng.randint(1, 4), 2)
         la, lb = len(pa.split()), len(pb.split())
         ms = list(_merges([la, lb]))
-        if not thorough and len(ms) > 24:
-            ms = rng.sample(ms, 24)
+        if not thorough and len(ms) > 14:
+            ms = rng.sample(ms, 14)
         prologue = rng.random() < 0.6
         mode = rng.randint(0, 1)
         dial = rng.choice([0, 0, 0, 0, 1, 2])
@@ -158,7 +158,7 @@ def gen_cases(rng, tier):
         for m in ms:
             cases.append(_case(rng, [pa, pb], m, prologue, 2, mode, dial, eocs, "pair"))
     # --- three sessions x <= 3 operations
-    ntrip = 120 if thorough else 25
+    ntrip = 40 if thorough else 20
     for n in range(ntrip):
         ps = []
         for _ in range(3):
@@ -168,7 +168,7 @@ def gen_cases(rng, tier):
                 p = _rand_prog(rng, rng.randint(1, 3), 2)
             ps.append(p)
         ms = list(_merges([len(p.split()) for p in ps]))
-        k = len(ms) if thorough else 16
+        k = len(ms) if thorough else 10
         if len(ms) > k:
             ms = rng.sample(ms, k)
         prologue = rng.random() < 0.7
@@ -178,7 +178,7 @@ def gen_cases(rng, tier):
         for m in ms:
             cases.append(_case(rng, ps, m, prologue, 2, mode, dial, eocs, "triple"))
     # --- random longer histories
-    for n in range(6000 if thorough else 500):
+    for n in range(6000 if thorough else 250):
         ns = rng.choice([2, 2, 3])
         nk = rng.choice([2, 3])
         ops = []
@@ -196,8 +196,8 @@ def gen_cases(rng, tier):
     for dial in (0, 1, 2):
         for mode in (0, 1):
             for victim in ("d1 d2 C", "s1 s2 C", "s1 d2 C", "d1 d2 d3 F C", "d2 C", "s2 C", "s1 s2 F l1 C"):
-                for other in ("s1 C", "d1 C", "s2 C", "d2 F C", "s1 s2 C"):
-                    for eoc in (0, 1):
+                for other in (("s1 C", "d1 C", "s2 C", "d2 F C", "s1 s2 C") if thorough else ("s1 C", "d2 F C", "s1 s2 C")):
+                    for eoc in ((0, 1) if thorough else (0,)):
                         la, lb = len(victim.split()), len(other.split())
                         order = [1] * lb + [0] * la
                         cases.append(_case(rng, [victim, other], order, True, 3, mode, dial, [eoc, 0], "dialect"))
